@@ -107,6 +107,11 @@ def r07_4(ctx):
     ctx.floor('R07.4', n, 30)
     # table agreement
     rt = ctx.f.table(codec.SPECS_MOD, 'REALTIME_TYPES')
+    for m_, name_, st_ in astq.one_shot_globals(ctx.p):
+        if name_ == 'REALTIME_TYPES':
+            ctx.fail('R07.4', 'REALTIME_TYPES.container', f'{m_.relpath}:{st_.lineno} REALTIME_TYPES',
+                     'REALTIME_TYPES is a one-shot iterator: the first membership test uses it up and save() stops refusing real-time messages',
+                     construct=f'{m_.relpath}::REALTIME_TYPES::one-shot')
     S = codec.specs(ctx)
     want = {row['type'] for row in S if row['status_byte'] >= 0xf8}
     mm = ctx.p.module(codec.SPECS_MOD)
